@@ -45,6 +45,10 @@ structure St where
   specChecked : Nat := 0
   specDiffs : List String := []
   refs : Std.HashMap String RefSt := {}
+  kept : Std.HashMap String String := {}           -- field-name lists kept by `q keepfields`
+  plSlots : Std.HashMap String Cmd := {}           -- the lookup a postings-list slot was last filled by
+  sabotaged : Std.HashMap String Bool := {}        -- opened segments whose mapping was taken away (`ref sabotage`)
+  mergeMemo : Std.HashMap String (Seg × List (List (Option Nat))) := {}
   pinned : Bool := false                           -- transcript of files written by the pinned release (frozen corpus)
   parMul : Nat := 1                                -- inside `par k`: each command of the body runs k times
   digests : Std.HashMap String String := {}      -- reference content digest per merge output name
@@ -221,6 +225,11 @@ def queryObs (st : St) (c : Cmd) : St × Verdict :=
     | "post" => (st, .exact (postObs st s c))
     | "dict" => (st, .exact (dictObs st s c))
     | "dictpair" => (st, .exact (dictPairObs st s c))
+    | "keepfields" => ({ st with kept := st.kept.insert (c.arg 2) (strList (s.fieldNames.map nameStr)) }, .exact "ok")
+    | "thesaddr" =>
+      -- `ThesaurusAddr(name)`: an error unless the segment has a thesaurus of that name
+      if (st.refs.get? (c.arg 1)).isNone then (st, .exact "inmem")
+      else (st, .exact (if (s.thes? (strBytes (c.arg 2))).isSome then "ok" else "err"))
     | "header" =>
       -- opened segments report their file's footer; segments in memory have none
       if (st.refs.get? (c.arg 1)).isSome then (st, .exact s!"mode={s.chunkMode} ver=16 docs={s.numDocs} crcok=1")
@@ -303,6 +312,15 @@ def vecObs (st : St) (c : Cmd) : St × Verdict :=
     let f := strBytes (c.arg 2)
     let has := (st.vecIx? seg f).isSome
     let cache := st.vcaches.getD seg {}
+    if (c.get? "engfail").isSome then
+      -- the engine fails while the index is loaded: the caller gets the error, nothing is cached and
+      -- nothing stays alive; when the armed call is never reached the open succeeds as usual
+      let stOk := { st with handles := st.handles.insert (c.arg 0) (seg, f, parseBitmap (c.getD "ex" "nil"), c.getD "filt" "0" == "1", has),
+                            vcaches := if has then st.vcaches.insert seg (cache.open f) else st.vcaches }
+      (st, .pred (fun g => if kvOf g "fired" == some "1" then g.startsWith "err:engine" else g.startsWith "ok")
+            "err:engine when the armed engine call was reached, ok otherwise")
+      |> fun r => if has ∧ !(cache.entries.any (·.field = f)) then r else (stOk, .pred (fun g => g.startsWith "ok") "ok (index already cached or no vectors: the engine is not called)")
+    else
     -- inside `par k` every goroutine opens its own handle under this name
     let st := { st with handles := st.handles.insert (c.arg 0) (seg, f, parseBitmap (c.getD "ex" "nil"), c.getD "filt" "0" == "1", has),
                         vcaches := if has then st.vcaches.insert seg (iterN (fun x => x.open f) st.parMul cache) else st.vcaches }
@@ -451,7 +469,12 @@ def commandObs (st : St) (c : Cmd) : St × Verdict :=
     if segs.length ≠ names.length then (st, .exact "scripterror:noseg") else
     let drops := dropsOf c names.length
     let mode := c.nat "mode" st.mode
-    let (m, maps) := mergeSegs st.vectors mode segs drops
+    -- the same merge repeated under faults or cancellation is computed once
+    let memoKey := s!"{c.getD "segs" "-"}|{c.getD "drops" ""}|{mode}|{names.map (fun n => ((st.segs.get? n).map (·.2)).getD 0)}"
+    let (m, maps) := match st.mergeMemo.get? memoKey with
+      | some r => r
+      | none => mergeSegs st.vectors mode segs drops
+    let st := { st with mergeMemo := st.mergeMemo.insert memoKey (m, maps) }
     -- files of the frozen corpus were MERGED by the pinned release, i.e. before fix D11
     let m := if st.pinned then pinnedDv segs maps m else m
     let okStr := s!"ok maps={if m.numDocs = 0 then "nil" else mapsStr maps} szeq=1"
@@ -463,7 +486,7 @@ def commandObs (st : St) (c : Cmd) : St × Verdict :=
       | some d, some ref => d == ref
       | _, _ => true
     let okPred : String → Bool := fun g => g.startsWith okStr && digestOk g
-    if cl == "before" then (st, .pred (fun g => g.startsWith "err:closed file=0") "err:closed file=0")
+    if cl == "before" ∨ cl.startsWith "beforebuf:" then (st, .pred (fun g => g.startsWith "err:closed file=0") "err:closed file=0")
     else if cl.startsWith "report:" then
       (st', .pred (fun g => g.startsWith "err:closed file=0" || okPred g) ("err:closed file=0 or " ++ okStr ++ " with the reference content digest"))
     else if (c.get? "engfail").isSome then
@@ -490,6 +513,7 @@ def commandObs (st : St) (c : Cmd) : St × Verdict :=
   | "enc" => (st, Codec.encVerdict c |> fun v => match v with
       | .inl s => .exact s
       | .inr (p, d) => .pred p d)
+  | "showkept" => (st, .exact ((st.kept.get? (c.arg 0)).getD "scripterror:nokept"))
   | "poolprobe" => (st, .exact "doubled=0")
   | "par" => ({ st with parMul := (c.arg 0).toNat?.getD 4 }, .none)
   | "endpar" => ({ st with parMul := 1 }, .none)
@@ -500,14 +524,26 @@ def commandObs (st : St) (c : Cmd) : St × Verdict :=
       (st, match c.arg 0 with
         | "refs" => .exact "refs=na"
         | "mapped" => .none
+        | "sabotage" => .exact "inmem"
         | _ => .exact "ok")
     | some r =>
+      -- the release that finds the mapping already gone (`ref sabotage`) reports the failed munmap,
+      -- and still closes the file
+      let r' := fun (op : RefOp) => iterN (fun x => x.step op) st.parMul r
+      let releasing := fun (op : RefOp) => (r' op).releases > r.releases
+      let relObs := fun (op : RefOp) =>
+        if st.sabotaged.contains name ∧ releasing op then Verdict.pred (fun g => g.startsWith "err") "an error (the mapping was taken away before the release)"
+        else Verdict.exact "ok"
       match c.arg 0 with
-      | "addref" => ({ st with refs := st.refs.insert name (iterN (fun x => x.step .addRef) st.parMul r) }, .exact "ok")
-      | "decref" => ({ st with refs := st.refs.insert name (iterN (fun x => x.step .decRef) st.parMul r) }, .exact "ok")
-      | "close" => ({ st with refs := st.refs.insert name (iterN (fun x => x.step .close) st.parMul r) }, .exact "ok")
+      | "addref" => ({ st with refs := st.refs.insert name (r' .addRef) }, .exact "ok")
+      | "decref" => ({ st with refs := st.refs.insert name (r' .decRef) }, relObs .decRef)
+      | "close" => ({ st with refs := st.refs.insert name (r' .close) }, relObs .close)
+      | "sabotage" => ({ st with sabotaged := st.sabotaged.insert name true }, .exact "ok")
       | "refs" => (st, .exact s!"refs={r.refs}")
       | "mapped" =>
+        if r.releases = 0 ∧ st.sabotaged.contains name then
+          (st, .pred (fun g => (kvOf g "fds") == some "1") "descriptor still held (the mapping was taken away)")
+        else
         if r.releases = 0 then
           (st, .pred (fun g => (kvOf g "fds") == some "1" ∧ ((kvOf g "maps").bind String.toNat?).getD 0 ≥ 1) "mapping and descriptor still held (maps>=1 fds=1)")
         else (st, .exact "maps=0 fds=0")
